@@ -10,6 +10,7 @@ a sequential driver that compares all_task_handles() with a model live-set at ev
 """
 from __future__ import annotations
 
+from collections import Counter
 from typing import Any
 
 import anyio
@@ -726,7 +727,7 @@ def gen_factory_program(rng: Any) -> dict[str, Any]:
         else:
             cmds.append(["yield", rng.randint(1, 3)])
     return {"backend": rng.choice(["asyncio", "trio"]), "sched_seed": rng.randrange(1 << 30), "shuffle": rng.random() < 0.5, "nested": rng.random() < 0.5,
-            "handler": handler, "bystander": rng.random() < 0.3, "cmds": cmds, "spawn_after_close": rng.choice([None, "start_task_soon", "start_task"]),
+            "handler": handler, "bystander": rng.random() < 0.3, "late_factory": rng.random() < 0.25, "cmds": cmds, "spawn_after_close": rng.choice([None, "start_task_soon", "start_task"]),
             # the factory is started in a context that holds no resource at all
             "handler_form": rng.choice(["function", "function", "falsy_object"]),
             "block_raises": (not will_crash) and rng.random() < 0.2,
@@ -976,6 +977,21 @@ class FactoryRun:
                 self.factory = await ctx.start_background_task_factory(exception_handler=handler)
             ctx.add_resource(ST0(), "after")
             ctx.add_resource_factory(lambda: ST0(), "after_factory", types=[ST0])  # (a factory added afterwards is not inherited either)
+            if prog.get("late_factory"):
+                # a shutdown hook of the owning context (registered after the main factory, so it runs before that one is finalized) that starts a task factory of its own
+                # while the context is being torn down and lets it flush something: that factory belongs to the context as well,
+                # and the teardown waits for its task
+                async def shutdown_hook() -> None:
+                    run.log("late-factory-start", "late")
+                    late_factory = await ctx.start_background_task_factory()
+
+                    async def flush() -> None:
+                        await anyio.sleep(1.5)
+                        run.log("late-factory-task-end", "late")
+
+                    late_factory.start_task_soon(flush)
+
+                ctx.add_teardown_callback(shutdown_hook)
             bystander_handle = None
             if prog.get("bystander"):
                 # a second task factory of the same application with one task that only ever ends by being cancelled: a failure that
@@ -1028,6 +1044,9 @@ class FactoryRun:
                             run.log("wait-return", tid)
 
                         self.waiters.start_soon(waiter)
+                        if tid % 2 == 0:
+                            # a second caller blocked in wait_finished() of the same handle at the same time
+                            self.waiters.start_soon(waiter)
                 elif kind == "sleep":
                     await anyio.sleep(cmd[1])
                 else:
@@ -1272,9 +1291,13 @@ def check_factory(run: FactoryRun) -> tuple[list[dict[str, Any]], dict[str, int]
                 if abs(want - e["vt"]) > 1e-9 and (fatal_seq is None or e["seq"] < fatal_seq):
                     bad("factory-wait-late", f"wait_finished() of task {tid} (called at {call['vt'] if call else '?'}) returned at {e['vt']}, the task ended at {te['vt']}")
     if fatal_seq is None:
-        returned = {(e["actor"]) for e in ev if e["kind"] == "wait-return"}
+        n_returned = Counter(e["actor"] for e in ev if e["kind"] == "wait-return")
+        n_called = Counter(e["actor"] for e in ev if e["kind"] == "wait-call")
+        for tid_, n in n_called.items():
+            if n > 1:
+                inc("tasks_with_several_callers_blocked_in_wait_finished")
         for e in ev:
-            if e["kind"] == "wait-call" and e["actor"] not in returned:
+            if e["kind"] == "wait-call" and n_returned[e["actor"]] < n_called[e["actor"]]:
                 bad("factory-wait-never-returned", f"wait_finished() of task {e['actor']} (called at {e['vt']}) had not returned 50 virtual seconds after the "
                                                    f"owning context was left")
     for e in ev:
@@ -1324,6 +1347,13 @@ def check_factory(run: FactoryRun) -> tuple[list[dict[str, Any]], dict[str, int]
         ends_after = [e["vt"] for e in fin.values() if e["seq"] > block_end["seq"]]
         # tasks spawned with start_task_soon right before the end may not even have started: they still run to completion
         exp_left = max([block_end["vt"]] + ends_after)
+        if prog.get("late_factory"):
+            inc("task_factories_started_by_a_teardown_callback_of_the_owner")
+            exp_left = max(exp_left, block_end["vt"] + 1.5)  # (the hook was registered after the main factory: it runs first)
+            flushed = next((e for e in ev if e["kind"] == "late-factory-task-end"), None)
+            if flushed is None or flushed["seq"] > left["seq"]:
+                bad("factory-task-after-exit", "the task of a task factory that a teardown callback of the owning context had started was "
+                                               f"{'never finished' if flushed is None else 'still running'} when the owning context had been left")
         running_at_end = [tid for tid, s in start.items() if tid in fin and fin[tid]["seq"] > block_end["seq"]]
         if running_at_end:
             inc("owner_left_with_tasks_running")
